@@ -38,7 +38,7 @@ Qed.
 (* ---------- PrintSecondsFractions with fixedWidth = false: digits until the remainder is zero ---------- *)
 
 Lemma psf_var k : forall val pos content den,
-  (1 <= k)%nat -> p10 (k - 1) < den -> 0 <= val < p10 k -> 0 <= pos -> pos + Z.of_nat k <= 31 ->
+  (1 <= k)%nat -> p10 (k - 1) < den -> 0 <= val < p10 k -> 0 <= pos -> pos + Z.of_nat k <= 47 ->
   exists ds, psf_loop (pows k) den false pos content val = Ok (Some (pos + Z.of_nat (length ds), content ++ ds)) /\
              all_digits ds = true /\ (1 <= length ds <= k)%nat /\ dec_value ds * p10 (k - length ds) = val.
 Proof.
@@ -76,7 +76,7 @@ Proof.
 Qed.
 
 (* the fraction of a sub-second duration: '.' and 1..w digits *)
-Lemma psf_print_var w pos content R cnt : frac_width w -> rep2 R -> Z.abs cnt < p10 w -> 0 <= pos -> pos + 1 + Z.of_nat w <= 31 ->
+Lemma psf_print_var w pos content R cnt : frac_width w -> rep2 R -> Z.abs cnt < p10 w -> 0 <= pos -> pos + 1 + Z.of_nat w <= 47 ->
   exists ds, print_sec_fractions pos content R (p10 w) cnt false =
                Ok (Some (pos + 1 + Z.of_nat (length ds), content ++ [c_dot] ++ ds)) /\
              all_digits ds = true /\ (1 <= length ds <= w)%nat /\ dec_value ds * p10 (w - length ds) = Z.abs cnt.
@@ -134,8 +134,7 @@ Qed.
 Lemma part_step P R X isSec suffix tl pos content :
   rep2 R -> unit_x X -> 1 <= unit_ticks P X -> fits R tl = true ->
   (isSec = true -> sub_second P = false) ->
-  (R = I32 -> Z.quot tl (unit_ticks P X) <> -2147483648) ->
-  0 <= pos -> pos + Z.of_nat (length (dec (Z.abs (Z.quot tl (unit_ticks P X))))) <= 31 ->
+  0 <= pos -> pos + Z.of_nat (length (dec (Z.abs (Z.quot tl (unit_ticks P X))))) <= 47 ->
   print_dur_part (pty P R) X isSec suffix (tl, pos, content) =
   if negb (Z.quot tl (unit_ticks P X) =? 0) || (isSec && negb (tl =? 0))
   then Ok (Z.rem tl (unit_ticks P X),
@@ -143,7 +142,7 @@ Lemma part_step P R X isSec suffix tl pos content :
            content ++ dec (Z.abs (Z.quot tl (unit_ticks P X))) ++ [suffix])
   else Ok (tl, pos, content).
 Proof.
-  intros HR HX Hu Ht Hsec H32 Hpos Hfit.
+  intros HR HX Hu Ht Hsec Hpos Hfit.
   destruct (dcast_unit P R X tl HR HX Hu Ht) as [E1 E2].
   destruct (quot_rem_facts tl (unit_ticks P X) Hu) as (Eq & Bq & Bq' & Br & Br' & Hp & Hn & _).
   set (u := unit_ticks P X) in *. set (q := Z.quot tl u) in *. set (r := Z.rem tl u) in *.
@@ -151,15 +150,10 @@ Proof.
   destruct (negb (q =? 0) || (isSec && negb (tl =? 0))) eqn:Econd; [|reflexivity].
   assert (Hs : is_signed R = true) by (destruct HR as [-> | ->]; reflexivity). rewrite Hs.
   apply fits_iff in Ht.
-  assert (Hval : (if q =? tmin I64 then Ok 9223372036854775808
-                  else a <- arith (promote R) (Z.abs q) ;; Ok (cast U64 a)) = Ok (Z.abs q)).
-  { destruct (Z.eqb_spec q (tmin I64)) as [E|E]; [rewrite E; reflexivity|].
-    change (tmin I64) with (-9223372036854775808) in E.
-    assert (Hfa : fits (promote R) (Z.abs q) = true).
-    { destruct HR as [HR | HR]; rewrite HR in *; cbn [promote]; [apply fits_I64 | apply fits_I32; specialize (H32 eq_refl)];
-        unfold tmin, tmax, half in Ht; cbn [is_signed] in Ht; lia. }
-    rewrite (arith_fits _ _ Hfa), bind_ok. rewrite cast_fits; [reflexivity|].
-    apply fits_U64. destruct HR as [HR | HR]; rewrite HR in *; unfold tmin, tmax, half in Ht; cbn [is_signed] in Ht; lia. }
+  assert (Hq64 : fits I64 q = true).
+  { apply fits_I64. destruct HR as [HR | HR]; rewrite HR in *; unfold tmin, tmax, half in Ht; cbn [is_signed] in Ht; lia. }
+  assert (Hval : (if q <? 0 then Ok (cast U64 (0 - cast U64 q)) else Ok (cast U64 q)) = Ok (Z.abs q)).
+  { rewrite <- (abs_year q Hq64). destruct (q <? 0); reflexivity. }
   rewrite Hval, bind_ok. unfold to_chars. pose proof (rep_bounds R) as HB.
   replace (BufSize - pos <? Z.of_nat (length (dec (Z.abs q)))) with false by (unfold BufSize; lia).
   assert (Hfq : fits R q = true) by (apply fits_iff; lia).
@@ -189,7 +183,7 @@ Qed.
 (* the seconds part of a sub-second duration: seconds, '.', 1..w fraction digits, 'S' *)
 Lemma sec_step_frac P R tl pos content :
   rep2 R -> sub_second P = true -> fits R tl = true -> tl <> 0 -> Z.abs tl < 60 * pden P ->
-  0 <= pos -> pos + 2 + 1 + Z.of_nat (frac_digits P) <= 31 ->
+  0 <= pos -> pos + 2 + 1 + Z.of_nat (frac_digits P) <= 47 ->
   exists ds, print_dur_part (pty P R) 1 true c_S (tl, pos, content) =
       Ok (0, pos + Z.of_nat (length (dec (Z.abs tl / pden P))) + 1 + Z.of_nat (length ds) + 1,
           content ++ dec (Z.abs tl / pden P) ++ [c_dot] ++ ds ++ [c_S]) /\
@@ -209,10 +203,10 @@ Proof.
   replace (negb (q =? 0) || (true && negb (tl =? 0))) with true by (destruct (q =? 0); cbn; lia).
   assert (Hs : is_signed R = true) by (destruct HR as [-> | ->]; reflexivity). rewrite Hs.
   apply fits_iff in Ht.
-  replace (q =? tmin I64) with false by (change (tmin I64) with (-9223372036854775808); lia).
-  assert (Hfa : fits (promote R) (Z.abs q) = true).
-  { destruct HR as [HR | HR]; rewrite HR; cbn [promote]; [apply fits_I64 | apply fits_I32]; lia. }
-  rewrite (arith_fits _ _ Hfa), !bind_ok. rewrite (cast_fits U64 (Z.abs q)) by (apply fits_U64; lia).
+  assert (Hq64 : fits I64 q = true) by (apply fits_I64; lia).
+  assert (Hval : (if q <? 0 then Ok (cast U64 (0 - cast U64 q)) else Ok (cast U64 q)) = Ok (Z.abs q)).
+  { rewrite <- (abs_year q Hq64). destruct (q <? 0); reflexivity. }
+  rewrite Hval, bind_ok.
   unfold to_chars. pose proof (rep_bounds R) as HB.
   replace (BufSize - pos <? Z.of_nat (length (dec (Z.abs q)))) with false by (unfold BufSize; lia).
   assert (Hfq : fits R q = true) by (apply fits_iff; lia).
@@ -243,14 +237,13 @@ Definition opt_comp (q : Z) (sym : N) : list N := if q =? 0 then [] else dec (Z.
 Lemma pstep P R X isSec suffix tl pos content :
   rep2 R -> unit_x X -> fits R tl = true -> (unit_ticks P X = 0 -> tl = 0) ->
   (isSec = true -> sub_second P = false) -> (isSec = true -> Z.rem tl (unit_ticks P X) = 0) ->
-  (R = I32 -> Z.quot tl (unit_ticks P X) <> -2147483648) ->
-  0 <= pos -> pos + Z.of_nat (length (dec (Z.abs (Z.quot tl (unit_ticks P X))))) <= 31 ->
+  0 <= pos -> pos + Z.of_nat (length (dec (Z.abs (Z.quot tl (unit_ticks P X))))) <= 47 ->
   print_dur_part (pty P R) X isSec suffix (tl, pos, content) =
   Ok (Z.rem tl (unit_ticks P X),
       pos + Z.of_nat (length (opt_comp (Z.quot tl (unit_ticks P X)) suffix)),
       content ++ opt_comp (Z.quot tl (unit_ticks P X)) suffix).
 Proof.
-  intros HR HX Ht Hz Hsec Hsr H32 Hpos Hfit.
+  intros HR HX Ht Hz Hsec Hsr Hpos Hfit.
   assert (Hu0 : 0 <= unit_ticks P X) by (unfold unit_ticks; destruct (prec_facts P) as (? & ? & _); destruct HX as [->|[->|[->| ->]]]; apply Z.div_pos; lia).
   destruct (Z.eq_dec (unit_ticks P X) 0) as [E0|E0].
   - rewrite (Hz E0), E0. rewrite part_step_zero by assumption.
